@@ -188,6 +188,8 @@ def rt_monitor(f, cfg):
     size = cfg['sizes'][cls]
     if f['finished'] != '1':
         res.append(('rt:not_finished', 'task did not finish'))
+    if f.get('other_exception', '0') != '0':
+        res.append(('rt:exception', 'yield / suspension threw an exception'))
     if f['interrupted'] != '0':
         res.append(('rt:inherited_interruption', 'task was interrupted although nobody interrupted it'))
     if f['start_intr_req'] != '0':
